@@ -908,6 +908,56 @@ def c05_e_safe_then_plain(i: int, j: int, lit: bool) -> bool:
 DETAIL["c05_e_safe_then_plain"] = lambda i, j, lit: ("%Y" + d_text(i, j), e_render(i, j, lit))
 CONDITIONS.append({"fn": "c05_e_safe_then_plain", "quick": 30, "thorough": 60, "sel_only": True})
 
+# --------------------------------------------------------------------------
+# F: every registered filter, applied once to plain data in 13 argument forms (literal arguments are safe
+# strings under autoescape; data arguments are not): the output is HTML-safe. The solver selects filter and form;
+# the body sweeps the two code points of the data text on the plain interpreter.
+# `safe` is documented to mark its input safe; script_tag / stylesheet_tag wrap the escaped input in markup of their own.
+# --------------------------------------------------------------------------
+F_NAMES = [n for n in sorted(ENV_ON.filters) if n not in ("safe", "script_tag", "stylesheet_tag")]
+F_FORMS = ["{{ s | %s }}", "{{ s | %s: 'a' }}", "{{ s | %s: s }}", "{{ 'a' | %s: s }}", "{{ s | %s: 'a', 'b' }}", "{{ s | %s: '%%Y' }}",
+           "{%% assign v = s | %s %%}{{ v }}", "{{ xs | %s }}", "{{ xs | %s: 'k' }}", "{{ hs | %s: 'k' }}", "{{ hs | %s: 'k', s }}",
+           "{{ s | %s: 1 }}", "{{ s | %s: 0, 1 }}"]
+F_T = {}
+
+
+def f_sweep(fi, form):
+    key = (fi, form)
+    if key not in F_T:
+        try:
+            F_T[key] = ENV_ON.from_string(F_FORMS[form] % F_NAMES[fi])
+        except Exception:
+            F_T[key] = None
+    t = F_T[key]
+    bad = []
+    if t is None:
+        return bad
+    for i in range(11):
+        for j in range(11):
+            text = d_text(i, j)
+            try:
+                out = t.render(s=text, xs=[text, "a"], hs=[{"k": text}, {"k": "a"}])
+            except Exception:
+                continue
+            if not html_safe(out):
+                bad.append((text, out))
+    return bad
+
+
+def c05_f_every_filter(fi: int, form: int) -> bool:
+    """
+    pre: 0 <= fi <= 76 and 0 <= form <= 12
+    post: _
+    """
+    if excluded("c05_f_every_filter", locals()):
+        return True
+    fi, form = cint(fi, 0, len(F_NAMES) - 1), cint(form, 0, 12)
+    return finish(untraced(lambda: not f_sweep(fi, form)))
+
+
+DETAIL["c05_f_every_filter"] = lambda fi, form: {"template": F_FORMS[form] % F_NAMES[fi], "data_text_and_output": f_sweep(fi, form)[:3]}
+CONDITIONS.append({"fn": "c05_f_every_filter", "quick": 120, "thorough": 300, "sel_only": True})
+
 ASSUMPTIONS = [
     "stub: markupsafe._escape_inner is bound to markupsafe._native._escape_inner (the documented pure-Python fallback) instead of the C speed-up, which would concretise symbolic strings before escaping; selftest compares both kernels",
     "template sources are concrete skeletons generated from the tables in harness/c05.py (constructs x filter chains); their literal text and string literals contain no HTML-special characters; render data s, t (strings), n (int), xs = [s, t] are symbolic",
@@ -921,7 +971,7 @@ ASSUMPTIONS = [
 ]
 OUTSIDE = [
     "data strings longer than 2 code points (3 in c05_a3_*), 1 code point in grouped c05_g_* conditions; characters outside the alphabet < > & ' \" a ; # l t, so data never contains a complete character reference or a percent/base64 encoding of a special character",
-    "filter chains longer than 3 and chains not listed in L1/L2/ARR; safe, newline_to_br, json, script_tag, stylesheet_tag and other HTML-generating filters; math/date filters",
+    "filter chains longer than 3 and chains not listed in L1/L2/ARR (family F applies every registered filter once, in 13 argument forms); safe, script_tag, stylesheet_tag (they emit markup by design)",
     "template literal text with HTML-special characters; attribute, URL and JavaScript contexts",
     "custom Translations objects, custom filters/tags, async rendering",
     "family C: only data over {a, b, space}",
@@ -929,6 +979,8 @@ OUTSIDE = [
 
 
 def selftest():
+    if len(F_NAMES) != 77:
+        return ["c05_f_every_filter is bounded to 77 filters, found %d" % len(F_NAMES)]
     fails = []
     import markupsafe._speedups as sp
     for v in ("", "<", "a&b", "<>&" + Q1 + Q2, "&lt;", "x" * 5 + "&"):
